@@ -1,5 +1,6 @@
 import VlsModel.Props.C18
 import VlsModel.Gen.FnByteUtils
+import VlsModel.Gen.FnChanId
 import VlsModel.Lemmas.FnGen
 /-
 C18 — `Keys.be64` (the BIP32 child index `LdkKeyDerive::channel_keys` reads off `keys_id[0..8]`,
@@ -11,6 +12,7 @@ looks at the first 8 bytes only, like the code (`C18_fn_slice_to_be64` holds for
 -/
 namespace VlsModel.Props.C18Fn
 open VlsModel VlsModel.Keys
+open VlsModel.Sha256 (Bytes)
 
 /-- a byte placed at bit `8·k` plus lower bits = or-ing it in -/
 theorem shl_or (h v k : Nat) (hv : v < 2 ^ k) : h <<< k ||| v = h * 2 ^ k + v := by
@@ -80,6 +82,122 @@ theorem C18_fn_slice_to_be64_short (v : List Nat) (h : v.length < 8) :
   | [_, _, _, _, _, _], _ => rfl
   | [_, _, _, _, _, _, _], _ => rfl
   | _ :: _ :: _ :: _ :: _ :: _ :: _ :: _ :: _, h => simp at h; omega
+
+
+/-! ## `ChannelId` of channel.rs: the generated bodies = the model's constructors and accessors
+
+`"tuple_structs": ["ChannelId"]`: the newtype is its `Vec<u8>` (a list of byte values).  `toN` reads the model's
+`Bytes` as such a list. -/
+
+def toN (b : Bytes) : List Nat := b.map UInt8.toNat
+
+theorem toN_length (b : Bytes) : (toN b).length = b.length := by simp [toN]
+
+theorem toN_append (a b : Bytes) : toN (a ++ b) = toN a ++ toN b := by simp [toN]
+
+theorem toN_inj (a b : Bytes) (h : toN a = toN b) : a = b := by
+  induction a generalizing b with
+  | nil => cases b <;> simp_all [toN]
+  | cons x xs ih =>
+    cases b with
+    | nil => simp [toN] at h
+    | cons y ys =>
+      simp only [toN, List.map_cons, List.cons.injEq] at h
+      rw [UInt8.toNat_inj.mp h.1, ih ys h.2]
+
+theorem toLeBytes_length (n x : Nat) : (Rs.toLeBytes n x).length = n := by simp [Rs.toLeBytes]
+
+theorem toN_le64 (o : Nat) : toN (le64 o) = Rs.toLeBytes 8 o := by
+  simp only [toN, le64, Rs.toLeBytes, List.map_map]
+  apply List.map_congr_left
+  intro i _
+  simp [UInt8.toNat_ofNat']
+
+theorem toN_replicate_zero (n : Nat) : toN (List.replicate n 0) = List.replicate n 0 := by
+  simp [toN]
+
+theorem fromLeBytes_toN (b : Bytes) : Rs.fromLeBytes (toN b) = le64Val b := by
+  simp only [Rs.fromLeBytes, Rs.fromBeBytes, List.foldl_reverse, le64Val, toN]
+  induction b with
+  | nil => rfl
+  | cons x xs ih => simp only [List.map_cons, List.foldr_cons, ih]; omega
+
+/-- `ChannelId::new(inner)` and `as_slice()` are the identity on the bytes: a `ChannelId` *is* the id the model uses -/
+theorem C18_fn_chanid_new (id : Bytes) :
+    Gen.FnChanId.ChannelId.new (toN id) = toN id ∧ Gen.FnChanId.ChannelId.as_slice (toN id) = toN id := ⟨rfl, rfl⟩
+
+/-- **C18_fn_chanid_of_peer_oid.** generated `new_from_peer_id_and_oid` = `Keys.chanIdOfPeerOid` (for a `[u8; 33]`) -/
+theorem C18_fn_chanid_of_peer_oid (p : Bytes) (o : Nat) (hp : p.length = 33) :
+    Gen.FnChanId.ChannelId.new_from_peer_id_and_oid (toN p) o = .ok (toN (chanIdOfPeerOid p o)) := by
+  have hl : (toN p).length = 33 := by simp [toN_length, hp]
+  have h1 : Rs.copyFromSlice (List.replicate 41 (0 : Nat)) 0 33 (toN p) = .ok (toN p ++ List.replicate 8 0) := by
+    simp [Rs.copyFromSlice, hl]
+  have hlen : (toN p ++ List.replicate 8 (0 : Nat)).length = 41 := by simp [hl]
+  have h2 : Rs.copyFromSlice (toN p ++ List.replicate 8 (0 : Nat)) 33 41 (Rs.toLeBytes 8 o)
+      = .ok (toN p ++ Rs.toLeBytes 8 o) := by
+    have ht : (toN p ++ List.replicate 8 (0 : Nat)).take 33 = toN p := by rw [← hl]; exact List.take_left
+    have hd : (toN p ++ List.replicate 8 (0 : Nat)).drop 41 = [] := by
+      apply List.drop_eq_nil_of_le; omega
+    have hc : 33 ≤ 41 ∧ 41 ≤ (toN p ++ List.replicate 8 (0 : Nat)).length ∧ (Rs.toLeBytes 8 o).length = 41 - 33 :=
+      ⟨by decide, by omega, by simp [toLeBytes_length]⟩
+    unfold Rs.copyFromSlice
+    rw [if_pos hc, ht, hd]
+    simp
+  simp only [Gen.FnChanId.ChannelId.new_from_peer_id_and_oid, Gen.FnChanId.ChannelId.new, Rs.slice,
+    List.length_replicate, h1, hlen, Rs.bind_ok, Rs.pure_eq, h2, chanIdOfPeerOid, toN_append, toN_le64]
+  simp
+
+/-- **C18_fn_chanid_of_oid.** generated `new_from_oid` = `Keys.chanIdOfOid` -/
+theorem C18_fn_chanid_of_oid (o : Nat) :
+    Gen.FnChanId.ChannelId.new_from_oid o = .ok (toN (chanIdOfOid o)) := by
+  have h2 : Rs.copyFromSlice (List.replicate 32 (0 : Nat)) 24 32 (Rs.toLeBytes 8 o)
+      = .ok (List.replicate 24 0 ++ Rs.toLeBytes 8 o) := by
+    simp [Rs.copyFromSlice, toLeBytes_length]
+  simp only [Gen.FnChanId.ChannelId.new_from_oid, Gen.FnChanId.ChannelId.new, Rs.slice,
+    List.length_replicate, Rs.bind_ok, Rs.pure_eq, h2, chanIdOfOid, toN_append, toN_le64, toN_replicate_zero]
+  simp
+
+/-- **C18_fn_chanid_oid.** generated `oid()` = `Keys.chanIdOid`; on an id shorter than 8 bytes `len - 8` underflows
+    (overflow-checked build: panic; release build: the wrapped start index makes the slice panic) = the model's `none` -/
+theorem C18_fn_chanid_oid (id : Bytes) :
+    Gen.FnChanId.ChannelId.oid (toN id)
+      = (match chanIdOid id with
+         | some n => .ok n
+         | none => .error .overflow) := by
+  by_cases h : id.length < 8
+  · have : ¬ 8 ≤ (toN id).length := by simp [toN_length]; omega
+    simp [Gen.FnChanId.ChannelId.oid, Rs.usub, this, chanIdOid, h, Rs.overflow]
+  · have h8 : 8 ≤ (toN id).length := by simp [toN_length]; omega
+    have hs : ((toN id).drop ((toN id).length - 8)).take ((toN id).length - ((toN id).length - 8))
+        = toN (id.drop (id.length - 8)) := by
+      have : (toN id).length - ((toN id).length - 8) = 8 := by omega
+      rw [this, toN_length]
+      simp only [toN, ← List.map_drop]
+      apply List.take_of_length_le
+      simp; omega
+    have hl8 : (toN (id.drop (id.length - 8))).length = 8 := by simp [toN_length]; omega
+    simp only [Gen.FnChanId.ChannelId.oid, Rs.usub, h8, if_true, Rs.bind_ok, Rs.pure_eq, Rs.slice,
+      Nat.sub_le, Nat.le_refl, and_true, hs, chanIdOid, h, if_false]
+    simp [Rs.copyFromSlice, hl8, fromLeBytes_toN]
+
+/-- **C18_fn_chanid_ldk_keys_id.** generated `ldk_channel_keys_id()` = `Keys.chanIdLdkKeysId` (panic unless 32 bytes) -/
+theorem C18_fn_chanid_ldk_keys_id (id : Bytes) :
+    Gen.FnChanId.ChannelId.ldk_channel_keys_id (toN id)
+      = (match chanIdLdkKeysId id with
+         | some x => .ok (toN x)
+         | none => .error .panic) := by
+  by_cases h : id.length = 32
+  · simp [Gen.FnChanId.ChannelId.ldk_channel_keys_id, Rs.copyFromSlice, toN_length, h, chanIdLdkKeysId]
+  · simp [Gen.FnChanId.ChannelId.ldk_channel_keys_id, Rs.copyFromSlice, toN_length, h, chanIdLdkKeysId, Rs.panic]
+
+/-- the distinctness theorems of `Props/C18.lean` are therefore about the ids the *generated* constructor builds:
+    two different (peer id, dbid) requests give different generated ids -/
+theorem C18_fn_chanid_injective (p p' : Bytes) (o o' : Nat) (hp : p.length = 33) (hp' : p'.length = 33)
+    (ho : o < 2 ^ 64) (ho' : o' < 2 ^ 64)
+    (h : Gen.FnChanId.ChannelId.new_from_peer_id_and_oid (toN p) o
+       = Gen.FnChanId.ChannelId.new_from_peer_id_and_oid (toN p') o') : p = p' ∧ o = o' := by
+  rw [C18_fn_chanid_of_peer_oid p o hp, C18_fn_chanid_of_peer_oid p' o' hp'] at h
+  exact Props.C18.C18_chanid_injective p p' o o' (by omega) ho ho' (toN_inj _ _ (Except.ok.inj h))
 
 /-- **C18_fn_ldk_index_in_range.** the LDK derivation's `assert!(chan_id <= u32::MAX)` and
     `from_hardened_idx(chan_id as u32)` see exactly the value of the generated function: on a keys id masked with the
